@@ -156,9 +156,17 @@ func c04W3CNeeded(p *nPeer) (needed, ambiguous bool) {
 				withOffer = nDirOf(sec) != c04Intersect(dir, nDirOf(rsec))
 			}
 			if direct != withOffer {
-				return false, true
+				// c04_answer_clause_readings_differ_iff: pion's plain comparison and W3C's
+				// clause differ. After a local answer that was NOT a legal response to
+				// the offer (C08's open findings) no prediction is made; after a legal
+				// answer W3C's clause decides.
+				rsec := c04Section(rd, t.Mid())
+				a, o := nDirOf(sec), nDirOf(rsec)
+				if c04Intersect(a, o) != a {
+					return false, true
+				}
 			}
-			if direct {
+			if withOffer {
 				return true, false
 			}
 		}
